@@ -1828,7 +1828,9 @@ class SignatureIndex:
                         continue
                     self.properties.add(node.name)
                     # ... and one that may refuse (raise) or keeps state (stores an attribute / item) is code whose position matters
-                    if any(isinstance(x, (ast.Raise, ast.Yield, ast.YieldFrom, ast.Await)) or (isinstance(x, (ast.Attribute, ast.Subscript)) and isinstance(x.ctx, (ast.Store, ast.Del))) for st in body for x in ast.walk(st)):
+                    # (a property that merely *refuses* - raises on an invalid state, computes nothing lasting - is a guard: reading
+                    # it a moment earlier or later, once or twice, aborts the same call either way; it still never moves into a try)
+                    if any(isinstance(x, (ast.Yield, ast.YieldFrom, ast.Await)) or (isinstance(x, (ast.Attribute, ast.Subscript)) and isinstance(x.ctx, (ast.Store, ast.Del))) for st in body for x in ast.walk(st)):
                         self.effectful_properties.add(node.name)
 
     def frozen_item(self, e: ast.AST) -> bool:
